@@ -198,6 +198,7 @@ def run(tier):
     rule_R9(res, prog)
     rule_R10(res, prog)
     rule_R11(res, prog)
+    rule_R12(res, prog)
     return res.finish()
 
 
@@ -877,3 +878,56 @@ def rule_R11(res, prog):
                              file=fp.relfile, line=sw["term"]["ln"])
             res.instance(rid, "parse_single_cert: version value %d %s" % (cv, "refused" if err else "accepted (CA test applies)"), ok, finding=f_)
     res.floor(rid, 3)
+
+
+def rule_R12(res, prog):
+    """'with an enabled algorithm': MD2/MD4/MD5 and SHA-1 signatures are enabled only by ENABLE_MD5_SIGNED_CERTS /
+    ENABLE_SHA1_SIGNED_CERTS.  Where the switch is off, parse_single_cert may still compute such a digest of the
+    TBSCertificate (the value the signature is later verified against) for ROOT certificates only: at every weak-digest
+    finaliser writing cert->sigHash the branch facts that hold on every path must include both `subject and issuer
+    common-name lengths are equal` and `memcmp of the two common names is zero`.  A test that passes when only one of the
+    two holds (`len == len && memcmp != 0 -> reject`) authenticates any SHA-1 signed leaf whose CN length differs from
+    its issuer's."""
+    import re
+    from sa import cfgutil as cu
+    rid = "C03.R12"
+    res.rule(rid, "weak signature digests (MD2/MD4/MD5/SHA-1) of the TBSCertificate are computed only when the algorithm is enabled by "
+                  "configuration, or for root certificates (subject CN equals issuer CN: length AND content facts)")
+    fn = prog.fn("parse_single_cert")
+    gf = cu.guard_facts(fn)
+    WEAK = {"psSha1Final": "ENABLE_SHA1_SIGNED_CERTS", "psMd5Final": "ENABLE_MD5_SIGNED_CERTS", "psMd2Final": "ENABLE_MD5_SIGNED_CERTS",
+            "psMd4Final": "ENABLE_MD5_SIGNED_CERTS"}
+    n = 0
+    for b, ln, call in fn.calls():
+        sw = WEAK.get(call.get("fn"))
+        if sw is None or not any(m.get("k") == "mem" and m.get("f") == "sigHash" for a in call.get("a", []) for m in walk(a)):
+            continue
+        n += 1
+        bid = b if isinstance(b, int) else b["id"]
+        if prog.defined(sw):
+            res.instance(rid, "%s:%s %s into sigHash: %s is configured on" % (fn.name, ln, call["fn"], sw), True)
+            continue
+        facts = gf.get(bid, ())
+        len_eq = mem_eq = False
+        for (txt, tr) in facts:
+            m = re.match(r"^\((.*) (==|!=) (.*)\)$", txt)
+            if m and "commonNameLen" in m.group(1) and "commonNameLen" in m.group(3) and \
+                    {"subject" in m.group(1), "subject" in m.group(3)} == {True, False} and \
+                    {"issuer" in m.group(1), "issuer" in m.group(3)} == {True, False}:
+                if (m.group(2) == "==") == tr:
+                    len_eq = True
+            if txt.startswith("memcmp(") and "subject.commonName," in txt.replace(" ,", ",") + "," and "issuer.commonName" in txt and not tr:
+                mem_eq = True
+        ok = len_eq and mem_eq
+        f_ = None
+        if not ok:
+            f_ = Finding(PROP, rid, fn.name, "weak digest computed for a certificate that need not be a root",
+                         "%s:%s parse_single_cert(): %s writes cert->sigHash while %s is not defined and the facts that hold on every "
+                         "path here do not include %s: a certificate signed with this digest that is not self-issued reaches "
+                         "signature verification and is authenticated with a disabled algorithm" % (
+                             fn.relfile, ln, call["fn"], sw,
+                             " and ".join(w for w, have in (("`subject CN length == issuer CN length`", len_eq),
+                                                            ("`memcmp(subject CN, issuer CN) == 0`", mem_eq)) if not have)),
+                         file=fn.relfile, line=ln)
+        res.instance(rid, "%s:%s %s into sigHash only for self-issued certificates (%s off)" % (fn.name, ln, call["fn"], sw), ok, finding=f_)
+    res.floor(rid, 1)
